@@ -122,11 +122,11 @@ func vnConstruct(id string, kind int, src []byte, exp []vnTok, bodyMax int) ([]b
 			c := b[i]
 			vAssume(c == ']' || c == '>' || c == '<' || c == 'a' || c == '[')
 		}
-		for i := 0; i+1 < n; i++ {
-			vAssume(!(b[i] == ']' && b[i+1] == ']'))
-		}
-		if n > 0 {
-			vAssume(b[n-1] != ']')
+		// well-formed section with this content: the first "]]>" of content+"]]>" is the terminator
+		// (the content may end in ']' and contain "]]" not followed by '>')
+		all := vnCat(b, []byte("]]>"))
+		for i := 0; i < n; i++ {
+			vAssume(!(all[i] == ']' && all[i+1] == ']' && all[i+2] == '>'))
 		}
 		piece := vnCat([]byte("<![CDATA["), b, []byte("]]>"))
 		return append(src, piece...), append(exp, vnTok{TextToken, b, nil, len(piece)}), true
